@@ -85,25 +85,11 @@ Definition hyps_b (n L : nat) (c : case) (hs : list hunk) : bool :=
   wf_hunksb n hs && hunks_dominatedb L hs && forallb label_okb (c_labels c)
   && diffs_okb (c_diffs c).
 
-(** [t] is a slice of [f] that starts at a line boundary and ends at a line boundary or at
-    the end of [f] (what a line-level merge hunk term is). *)
-Fixpoint is_prefixb (t f : bytes) : option bytes :=
-  match t, f with
-  | [], _ => Some f
-  | x :: t', y :: f' => if N.eqb x y then is_prefixb t' f' else None
-  | _ :: _, [] => None
-  end.
-Fixpoint aligned_slice_from (at_start : bool) (t f : bytes) : bool :=
-  (at_start && match is_prefixb t f with
-               | Some rest => ends_ok t || match rest with [] => true | _ => false end
-               | None => false
-               end)
-  || match f with
-     | [] => false
-     | b :: f' => aligned_slice_from (N.eqb b LF) t f'
-     end.
-Definition aligned_sliceb (files : list bytes) (t : bytes) : bool :=
-  existsb (aligned_slice_from true t) files.
+(** Every line of [t] is a line of one of the files. A line-level merge guarantees this for
+    every hunk term: conflict terms are slices of the inputs at line boundaries, resolved
+    hunks are concatenations of such slices (possibly of different inputs). *)
+Definition lines_ofb (files : list bytes) (t : bytes) : bool :=
+  forallb (fun l => mem bytes_eqb l (flat_map lines files)) (lines t).
 
 (* ---------------------------------------------------- the check *)
 
@@ -158,13 +144,13 @@ Definition check_case (c : case) : N :=
               (parse_conflict (c_probe c) (N.to_nat (c_probe_sides c)) (N.to_nat (c_probe_len c)))
               (c_probe_parsed c) in
   (* the theorem's hypotheses hold on every real line-level merge at the chosen length,
-     and hunk terms of line-level merges are line-aligned slices of the inputs *)
+     and hunk terms of line-level merges consist of lines of the inputs *)
   let d5 := match c_merged c, c_len c with
             | inr hs, None => c_word c || hyps_b n L c hs
             | _, _ => true
             end in
   let d6 := match c_merged c with
-            | inr hs => c_word c || forallb (forallb (aligned_sliceb (c_files c))) hs
+            | inr hs => c_word c || forallb (forallb (lines_ofb (c_files c))) hs
             | inl _ => true
             end in
   let corr := d1 && d2 && d3 && d4 && d5 && d6 && negb (c_panicked c) in
